@@ -73,6 +73,9 @@ type summary struct {
 	Steps       uint64         `json:"steps"`
 	Switches    uint64         `json:"switches"`
 	Preempts    uint64         `json:"preempts"`
+	SyncPre     uint64         `json:"sync_event_preemptions"`
+	FairYields  uint64         `json:"fair_yields"`
+	SharedIn    int            `json:"shared_inputs"`
 	Faults      map[string]int `json:"faults"`
 	FaultyRuns  int            `json:"faulty_runs"`
 	CleanRuns   int            `json:"fault_free_runs"`
@@ -609,7 +612,8 @@ func writeEvidence(cfg tierCfg, sums []summary, wall float64, nViol, raceRuns, r
 	faults := map[string]int{}
 	opKinds := map[string]int{}
 	var runs, ops, faulty, clean, noerr, siteTotal int
-	var steps, switches, preempts, maxOp uint64
+	var steps, switches, preempts, maxOp, syncPre, fairYields uint64
+	sharedIn := 0
 	var samples []any
 	var trace []string
 	for _, s := range sums {
@@ -618,6 +622,9 @@ func writeEvidence(cfg tierCfg, sums []summary, wall float64, nViol, raceRuns, r
 		steps += s.Steps
 		switches += s.Switches
 		preempts += s.Preempts
+		syncPre += s.SyncPre
+		fairYields += s.FairYields
+		sharedIn += s.SharedIn
 		faulty += s.FaultyRuns
 		clean += s.CleanRuns
 		noerr += s.NoErrRuns
@@ -676,41 +683,44 @@ func writeEvidence(cfg tierCfg, sums []summary, wall float64, nViol, raceRuns, r
 		"wall_s":      wall,
 		"violations":  nViol,
 		"coverage": map[string]any{
-			"evaluations":                runs,
-			"distinct_nontrivial":        len(nontrivial),
-			"rule":                       "one evaluation = one simulated run: a seeded Program (1-3 epochs of 1-6 simulated caller goroutines, each with a list of library calls on shared and caller-owned objects, plus stream fault plans) executed once sequentially and once under its seeded schedule. A run is non-trivial if at least one mid-operation pre-emption fired, or at least one injected fault fired, or some task called the library at least twice on caller-owned objects it keeps; distinct = distinct hash of (program, realised schedule event log, fired fault counters).",
-			"samples":                    samples,
-			"sample_schedule_trace":      trace,
-			"runs_per_hour":              float64(runs) / wall * 3600,
-			"seeds_note":                 "every run derives its own PRNG stream from (VERIF_SEED, run index, profile), so runs_per_hour is also the number of distinct PRNG seeds explored per hour; VERIF_SEED selects the family",
-			"operations":                 ops,
-			"logical_steps":              steps,
-			"simulated_time_note":        "the library has no clock; logical time is the number of statements executed (logical_steps)",
-			"context_switches":           switches,
-			"mid_operation_preemptions":  preempts,
-			"distinct_schedules":         len(schedules),
-			"distinct_overlap_triples":   len(overlaps),
-			"yield_sites_hit":            len(sites),
-			"yield_sites_total":          siteTotal,
-			"faults_fired":               faults,
-			"runs_with_faults":           faulty,
-			"runs_fault_free":            clean,
-			"runs_without_error_faults":  noerr,
-			"fault_accounting_note":      "faults_fired counts events that actually fired. frag/short-write/backpressure/stall only perturb delivery and leave the oracle strict; err-transient/err-sticky/data+err/eof-early are error faults, after which the oracle accepts an error return for the affected token or document (never a wrong value). runs_without_error_faults are judged with no relaxation at all.",
-			"op_kinds":                   opKinds,
-			"max_steps_of_one_operation": maxOp,
-			"step_budget":                budget,
-			"race_build_runs":            raceRuns,
-			"race_reports":               raceReports,
-			"alt_toolchain_runs":         altRuns,
-			"toolchains":                 toolchains,
-			"known_findings_seen":        kh,
-			"tree_hash":                  tree,
-			"new_shared_state_focus":     focusInfo,
-			"profile":                    cfg.profile,
-			"workers":                    runtime.NumCPU(),
-			"components_real":            []string{"library (go/ast-instrumented copy of /repo's working tree)", "fmt", "encoding/json", "math/big", "bufio", "strconv"},
-			"components_stub":            []string{"scheduler (one task runs at a time, raw-syscall baton)", "byte streams and their faults", "simulator-owned fmt.State", "database/sql driver hand-over (Decompose/hold/Compose)"},
+			"evaluations":                           runs,
+			"distinct_nontrivial":                   len(nontrivial),
+			"rule":                                  "one evaluation = one simulated run: a seeded Program (1-3 epochs of 1-6 simulated caller goroutines, each with a list of library calls on shared and caller-owned objects, plus stream fault plans) executed once sequentially and once under its seeded schedule. A run is non-trivial if at least one mid-operation pre-emption fired, or at least one injected fault fired, or some task called the library at least twice on caller-owned objects it keeps; distinct = distinct hash of (program, realised schedule event log, fired fault counters).",
+			"samples":                               samples,
+			"sample_schedule_trace":                 trace,
+			"runs_per_hour":                         float64(runs) / wall * 3600,
+			"seeds_note":                            "every run derives its own PRNG stream from (VERIF_SEED, run index, profile), so runs_per_hour is also the number of distinct PRNG seeds explored per hour; VERIF_SEED selects the family",
+			"operations":                            ops,
+			"logical_steps":                         steps,
+			"simulated_time_note":                   "the library has no clock; logical time is the number of statements executed (logical_steps)",
+			"context_switches":                      switches,
+			"mid_operation_preemptions":             preempts,
+			"preemptions_at_synchronisation_events": syncPre,
+			"fairness_yields":                       fairYields,
+			"inputs_shared_read_only_between_tasks": sharedIn,
+			"distinct_schedules":                    len(schedules),
+			"distinct_overlap_triples":              len(overlaps),
+			"yield_sites_hit":                       len(sites),
+			"yield_sites_total":                     siteTotal,
+			"faults_fired":                          faults,
+			"runs_with_faults":                      faulty,
+			"runs_fault_free":                       clean,
+			"runs_without_error_faults":             noerr,
+			"fault_accounting_note":                 "faults_fired counts events that actually fired. frag/short-write/backpressure/stall only perturb delivery and leave the oracle strict; err-transient/err-sticky/data+err/eof-early are error faults, after which the oracle accepts an error return for the affected token or document (never a wrong value). runs_without_error_faults are judged with no relaxation at all.",
+			"op_kinds":                              opKinds,
+			"max_steps_of_one_operation":            maxOp,
+			"step_budget":                           budget,
+			"race_build_runs":                       raceRuns,
+			"race_reports":                          raceReports,
+			"alt_toolchain_runs":                    altRuns,
+			"toolchains":                            toolchains,
+			"known_findings_seen":                   kh,
+			"tree_hash":                             tree,
+			"new_shared_state_focus":                focusInfo,
+			"profile":                               cfg.profile,
+			"workers":                               runtime.NumCPU(),
+			"components_real":                       []string{"library (go/ast-instrumented copy of /repo's working tree)", "fmt", "encoding/json", "math/big", "bufio", "strconv"},
+			"components_stub":                       []string{"scheduler (one task runs at a time; raw-syscall baton in race builds, one-slot channel with GOMAXPROCS=1 otherwise)", "byte streams and their faults", "simulator-owned fmt.State", "database/sql driver hand-over (Decompose/hold/Compose)"},
 		},
 		"assumptions": []string{
 			"the inputs quantifier is only sampled by the seeded, boundary-biased generators; a clean batch is evidence, not proof",
